@@ -190,6 +190,15 @@ Section TwoSources.
     cbn [fst snd] in *. injection B1 as <- <-. split; [reflexivity|exact B2].
   Qed.
 
+  Lemma sim_skip_gap : forall fuel gap s s', sim s s' -> sim (skip_gap fuel gap s) (skip_gap fuel gap s').
+  Proof.
+    induction fuel as [|fu IH]; intros gap s s' H; [exact H|].
+    cbn [skip_gap]. destruct (gap >? 0); [|exact H].
+    destruct (sim_read gap s s' H) as [R1 R2].
+    destruct (s_read gap s) as [d s1]. destruct (s_read gap s') as [d' s1']. cbn [fst snd] in R1, R2. subst d'.
+    destruct (len d =? 0); [exact R2|]. now apply IH.
+  Qed.
+
   Lemma sim_finish_evlrs rh s s' : sim s s' ->
     fst (finish_evlrs c rh s) = fst (finish_evlrs c' rh s') /\ sim (snd (finish_evlrs c rh s)) (snd (finish_evlrs c' rh s')).
   Proof.
@@ -198,8 +207,10 @@ Section TwoSources.
     - destruct (sim_can_seek s s' H) as (A1 & A1' & A2).
       destruct (s_can_seek c s) as [sk s1]. destruct (s_can_seek c' s') as [sk' s1']. cbn [fst snd] in A1, A1', A2. subst sk sk'.
       destruct (can_seek c) in |- *; [now apply sim_hdr_read_evlrs|].
-      destruct (sim_sread_vlrs (Z.to_nat (h_nev rh)) s1 s1' A2) as [V1 V2].
-      destruct (sread_vlrs (Z.to_nat (h_nev rh)) s1) as [r s2]. destruct (sread_vlrs (Z.to_nat (h_nev rh)) s1') as [r' s2'].
+      pose proof (sim_skip_gap skip_fuel (evlr_gap rh) s1 s1' A2) as G.
+      destruct (sim_sread_vlrs (Z.to_nat (h_nev rh)) _ _ G) as [V1 V2].
+      destruct (sread_vlrs (Z.to_nat (h_nev rh)) (skip_gap skip_fuel (evlr_gap rh) s1)) as [r s2].
+      destruct (sread_vlrs (Z.to_nat (h_nev rh)) (skip_gap skip_fuel (evlr_gap rh) s1')) as [r' s2'].
       cbn [fst snd] in *. subst r'. split; [reflexivity|exact V2].
     - destruct ((h_minor rh >=? 4) && is_none (rh_evlrs rh)); (split; [reflexivity|exact H]).
   Qed.
